@@ -120,7 +120,7 @@ void h_new_insn_call (void) {
   vp_proto.vararg_p = nondet_int () != 0;
   vp_proto.name = "p";
   vp_args_varr.els_num = nargs; vp_args_varr.size = 3; vp_args_varr.varr = vp_args;
-  vp_proto.args = nondet_int () && nargs == 0 ? NULL : &vp_args_varr;
+  vp_proto.args = &vp_args_varr; /* MIR_new_proto always creates the argument VARR */
   for (int i = 0; i < 3; i++) { vp_args[i].type = MIR_T_I64; vp_args[i].size = 0; }
   vp_proto_item.item_type = MIR_proto_item;
   vp_proto_item.u.proto = &vp_proto;
